@@ -320,7 +320,7 @@ func buildFitgen() (string, error) {
 	return fitgenBin, fitgenErr
 }
 
-func runFitgen(bin, input, ver, out string, viaZip, override, hrst bool) (string, error) {
+func runFitgen(bin, workDir, input, ver, out string, viaZip, override, hrst bool) (string, error) {
 	args := []string{}
 	if hrst {
 		args = append(args, "-hrst")
@@ -332,11 +332,11 @@ func runFitgen(bin, input, ver, out string, viaZip, override, hrst bool) (string
 	cmd := exec.Command(bin, args...)
 	if !filepath.IsAbs(out) {
 		// a relative output directory, resolved against the command's
-		// working directory (= the directory that holds the input)
-		cmd.Dir = filepath.Dir(input)
+		// working directory (= the directory the outputs live in)
+		cmd.Dir = workDir
 		// ... and, where the machine has one, a temporary directory on
 		// another filesystem than the output (TMPDIR on tmpfs, sources on disk)
-		if td := otherFilesystem(filepath.Dir(input)); td != "" {
+		if td := otherFilesystem(workDir); td != "" {
 			cmd.Env = append(os.Environ(), "TMPDIR="+td)
 		}
 	}
@@ -432,6 +432,16 @@ func checkSelection(c selCase, labels map[string]int) (string, bool) {
 			}
 			labels["second run over existing longer files"]++
 		}
+		inArg := input
+		if i == 1 {
+			// ... and reaches its input through a symbolic link
+			// (same file name: the SDK version is read off a zip's name)
+			os.MkdirAll(filepath.Join(tmp, "linked"), 0o755)
+			link := filepath.Join(tmp, "linked", filepath.Base(input))
+			if os.Symlink(input, link) == nil {
+				inArg = link
+			}
+		}
 		outArg := o
 		if i == 1 {
 			// the second run names its output directory relative to the
@@ -439,7 +449,7 @@ func checkSelection(c selCase, labels map[string]int) (string, bool) {
 			// or a go:generate line)
 			outArg = filepath.Base(o)
 		}
-		log, err := runFitgen(bin, input, c.Version, outArg, c.ViaZip, c.ZipOverride, c.HRST)
+		log, err := runFitgen(bin, tmp, inArg, c.Version, outArg, c.ViaZip, c.ZipOverride, c.HRST)
 		if err != nil {
 			tail := log
 			if len(tail) > 1500 {
